@@ -125,9 +125,7 @@ def check(case: t.Any, ctx: Ctx) -> None:
         return
     ctx.evaluated(2)
     klass_override = None
-    if vol_in_union(nd):
-        klass_override = 'union:ValueOrList-member-claimed-by-later-member'
-    elif d9_config(nd):
+    if d9_config(nd):
         klass_override = 'dataclass:tuple-out-with-kw-only-field'
     if res is not None:
         def failing(n: tg.Node, x: t.Any) -> bool:
